@@ -409,7 +409,12 @@ class Connection(object):
             self._recvlock.release()
             with self._recv_event:
                 self._recv_event.notify_all()
-        self._dispatch(data)
+        try:
+            self._dispatch(data)
+        except EOFError:
+            # the transport failed while answering (or while a nested request was sent): this side is done
+            self.close()
+            raise
         return True
 
     def poll(self, timeout=0):  # serving
